@@ -426,13 +426,40 @@ fn gen_case(fmt: Fmt, rng: &mut Rng) -> Case {
         };
         names.push(LName { name, target });
     }
+    // xlsb: the records Excel writes between BrtWbProp and BrtBeginBundleShs (BrtBeginBookViews, BrtBookView with the
+    // window geometry, BrtEndBookViews) and an unknown future record, with their payloads
+    let mut pre = vec![];
+    if fmt == Fmt::Xlsb && rng.chance(1, 2) {
+        let coord = |rng: &mut Rng| -> u32 {
+            match rng.below(6) {
+                0 => *rng.pick(&[400u32, 412, 409, 0x019C_0190, 144, 156]),
+                1 => rng.next() as u32,
+                _ => rng.below(40000) as u32,
+            }
+        };
+        let mut p = vec![];
+        for _ in 0..4 {
+            p.extend_from_slice(&coord(rng).to_le_bytes());
+        }
+        p.extend_from_slice(&600u32.to_le_bytes());
+        p.extend_from_slice(&0u32.to_le_bytes());
+        p.extend_from_slice(&(rng.below(n_sheets as u64 + 1) as u32).to_le_bytes());
+        p.push(0x78);
+        pre.push((0x0087u16, vec![]));
+        pre.push((0x009Eu16, p));
+        pre.push((0x0088u16, vec![]));
+        if rng.chance(1, 4) {
+            let n = rng.below(12) as usize;
+            pre.push((0x0C00u16, rng.bytes(n)));
+        }
+    }
     Case {
         fmt,
         seed: rng.next() >> 16,
         date1904: rng.chance(1, 2),
         prefix: if fmt == Fmt::Xlsx && rng.chance(1, 3) { "x".into() } else { String::new() },
         plain: false,
-        pre: vec![],
+        pre,
         sheets,
         names,
     }
@@ -1137,6 +1164,11 @@ fn shrink(c: &Case, kind: &str, sig: &str, drv: &mut Driver) -> Case {
                 _ => {}
             }
         }
+        for i in 0..cur.pre.len() {
+            let mut d = cur.clone();
+            d.pre.remove(i);
+            cands.push(d);
+        }
         if cur.date1904 {
             let mut d = cur.clone();
             d.date1904 = false;
@@ -1358,6 +1390,21 @@ fn corpus() -> Vec<Case> {
     for fmt in [Fmt::Xls, Fmt::Xlsb] {
         let mut c = base(fmt);
         c.names = vec![LName { name: "N1".into(), target: Target::Ref(0, 0, 26) }];
+        v.push(c);
+    }
+    // D39: xlsb read_workbook read the payload bytes of records it does not know as record ids: a BrtBookView
+    // (window geometry) with dxWn = 400 (bytes 90 01 = BrtEndBundleShs) gave a workbook without sheets, xWn = 412
+    // (bytes 9C 01 00 = an empty BrtBundleSh) a panic
+    for xs in [[0u32, 0, 400, 12300], [412, 0, 28800, 12300]] {
+        let mut c = base(Fmt::Xlsb);
+        let mut p = vec![];
+        for x in xs {
+            p.extend_from_slice(&x.to_le_bytes());
+        }
+        p.extend_from_slice(&600u32.to_le_bytes());
+        p.extend_from_slice(&[0u8; 8]);
+        p.push(0x78);
+        c.pre = vec![(0x0087, vec![]), (0x009E, p), (0x0088, vec![])];
         v.push(c);
     }
     // plain sanity cases for every format: all visibilities and kinds, specials in names
